@@ -23,6 +23,7 @@ import (
 	"verifharness/engines/c14"
 	"verifharness/engines/c15"
 	"verifharness/engines/c16"
+	"verifharness/engines/c19"
 	"verifharness/engines/c20"
 	"verifharness/engines/pipe"
 	"verifharness/gen"
@@ -45,6 +46,7 @@ var engines = map[string]func(*gen.Ctx) error{
 	"c14": c14.Run,
 	"c15": c15.Run,
 	"c16": c16.Run,
+	"c19": c19.Run,
 	"c20": c20.Run,
 }
 
